@@ -241,6 +241,9 @@ func Kendall(x, y, weights []float64) float64 {
 	if len(x) != len(y) {
 		panic("stat: slice length mismatch")
 	}
+	if weights != nil && len(weights) != len(x) {
+		panic("stat: slice length mismatch")
+	}
 
 	var (
 		cc float64 // number of concordant pairs
